@@ -77,7 +77,13 @@ def create_linked_view(project, prefix=None, job_ids=None, path=None):
 
     links = {}
     for job in jobs:
-        paths = os.path.join(path_function(job), "job")
+        # Existing links are found under their normalized paths: a link spelled
+        # './a/1/job' or 'a//1/job' would be removed and created again on every call.
+        paths = os.path.normpath(os.path.join(path_function(job), "job"))
+        if paths in links:
+            raise RuntimeError(
+                f"The path '{paths}' is not unique within the linked view."
+            )
         links[paths] = job.path
     if not links and job_ids is None:  # data space contains less than two elements
         for job in project.find_jobs():
